@@ -7,10 +7,11 @@ from .c05 import content_field_writes, node_of, owner_qname
 
 LEVEL = 'other'
 RULES = {
+    'C04.R7': 'each instantiation of compose substitutes at the terminals of the receiving tree (dispatch table shared with C02.R4)',
     'C04.R6': 'a node is a terminal exactly when it has no children: the leaf flag is maintained by the arena mutators as their effect contracts say (shared with C12.R2)',
     'C04.R5': helpers.RULE_TEXT,
     'C04.R1': 'who may write node functions (AffContent.aff) outside constructors: from_poly (fresh root), apply_func_at_node, update_node, remove_axes, unary_op_inplace; who may write the cached state / witnesses (AffContent.state): new nodes start Indeterminate (shared with C05.R2)',
-    'C04.R2': 'shape of what is written: composition kernels keep the input dimension (rows(A) x n), apply_func visits all terminals, remove_axes rewrites every node and in_dim together, decisions are copied with their row count; constructors declare the input dimension of the function they store (from_aff, with_capacity, new, from_poly)',
+    'C04.R2': 'shape of what is written: composition kernels keep the input dimension (rows(A) x n), apply_func visits all terminals, remove_axes rewrites every node and in_dim together, decisions are copied with their row count; constructors declare the input dimension of the function they store (from_aff, with_capacity, new, from_poly); from_poly attaches a caller-supplied function only after expect_dim(indim(poly), indim(it))? succeeded',
     'C04.R3': 'a removal must not leave a decision without children (a childless decision is flagged as terminal)',
     'C04.R4': 'every call of Tree::merge_child_with_parent (asserts exactly one child) is preceded by the removal of the node\'s other children and guarded by the single-survivor conditions',
 }
@@ -22,7 +23,7 @@ WRAPPERS = {
     'AffTree::add_child_node': ('Tree::add_child_node(self.tree, node, label, AffContent::new(aff))', [], 'attaches a fresh node (state Indeterminate) holding aff under (node, label)'),
     'AffTree::from_tree': ('AffTree::AffTree{tree, dim, RefCell::new(Vec::new())}', [], 'wraps the tree with the given input dimension and an empty scratch cache'),
 }
-FLOORS = {'C04.R6': 15, 'C04.R5': 12, 'C04.R1': 10, 'C04.R2': 19, 'C04.R3': 5, 'C04.R4': 7}
+FLOORS = {'C04.R7': 4, 'C04.R6': 15, 'C04.R5': 12, 'C04.R1': 10, 'C04.R2': 21, 'C04.R3': 5, 'C04.R4': 7}
 EXPLANATION = 'Input-dimension / common-output-dimension preservation, absence of the childless-decision state, absence of the merge assertion panic, for all histories.'
 DOES_NOT_DECIDE = 'panics reachable through unwrap/indexing inside ndarray/minilp; numeric content of node functions'
 ALLOWED_WRITERS = {
@@ -292,6 +293,56 @@ def constructors_in_dim(ctx):
                                     'from_poly does not create the tree with the input dimension of poly / func_true (%s)' % (fmt(s(wc[0][0]))[:80] if len(wc) == 1 else 'no single constructor call'), b.span)
 
 
+def from_poly_attached_dims(ctx, rule):
+    """from_poly: every caller-supplied function it attaches as a node (func_true, the payload of func_false) has had its input dimension
+    compared with the polytope's by InputError::expect_dim, with the failing outcome returned (`?`), on every path that reaches the attach
+    site under the site's own guards (func_false is Some).  Rows of the polytope need no check."""
+    from ..mir import edge_literal
+    b = ctx.body(rule, 'AffTree::from_poly')
+    if b is None:
+        return
+    R = Resolver(b)
+    cfg = b.cfg()
+    checks = [(bb, R.call_args(bb), t) for bb, t in b.calls_to('InputError::expect_dim')]
+    switches = [(sb, e, edge_literal(b, R, sb, cfg.edge_label[e])) for sb, bl in b.live_blocks() if bl['term']['k'] == 'switch' for e in cfg.edge_nodes(sb)]
+    by_param = {}
+    for bb, t in b.calls_to('AffTree::add_child_node'):
+        a = R.call_args(bb)
+        if len(a) < 4:
+            continue
+        ps = set(x[1] for x in walk(a[3]) if isinstance(x, tuple) and x[:1] == ('param',) and x[1] not in ('poly', 'self'))
+        for p_ in ps:
+            by_param.setdefault(p_, []).append((bb, t))
+    if not by_param:
+        ctx.lost(rule, 'caller-supplied functions attached by from_poly')
+    for p_, sites in sorted(by_param.items()):
+        site = 'AffTree::from_poly#checked-dim:%s' % p_
+        mine = []
+        for cb, ca, ct in checks:
+            sides = [s(x) for x in ca[:2]]
+            poly_side = [x for x in sides if is_call(x, 'AffFuncBase::indim') and x[2][0] == ('param', 'poly')]
+            own_side = [x for x in sides if is_call(x, 'AffFuncBase::indim') and any(y == ('param', p_) for y in walk(x[2][0]))]
+            if poly_side and own_side and ct.get('target') is not None:
+                # the failing outcome leaves the function: only the Continue / Ok edge of the test of this call goes on
+                go = [e for sb, e, lit in switches if lit and lit[0] == 'is' and any(is_call(y, 'InputError::expect_dim') and y[3] == cb for y in walk(lit[1]))
+                      and set(lit[2]) & {'Continue', 'Ok'}]
+                stop = [e for sb, e, lit in switches if lit and lit[0] == 'is' and any(is_call(y, 'InputError::expect_dim') and y[3] == cb for y in walk(lit[1]))
+                        and not (set(lit[2]) & {'Continue', 'Ok'})]
+                if go and stop and all(not cfg.reaches(e, ab) for e in stop for ab, _ in sites):
+                    mine.append(cb)
+        bad = None
+        for ab, at in sites:
+            guards = [l for l in literals(b, R, ab) if l[0] == 'is']
+            dead = [e for sb, e, lit in switches if lit and lit[0] == 'is' and any(s(lit[1]) == s(g[1]) and not (set(lit[2]) & set(g[2])) for g in guards)]
+            if cfg.reaches(0, ab, avoid=mine + dead):
+                bad = at
+        if bad is None:
+            ctx.ok(rule, site, 'attached only after expect_dim(indim(poly), indim(%s))? succeeded' % p_, sites[0][1]['span'])
+        else:
+            ctx.bad(rule, site, 'the function taken from `%s` is attached as a node without its input dimension having been compared with the polytope\'s '
+                    '(a mismatching function yields Ok and an ill-formed tree instead of Err(DimensionMismatch))' % p_, bad['span'])
+
+
 def decision_row_guard(ctx):
     """add_decision admits a predicate by its number of ROWS (one row per binary test, at most K of them as the assertion is written): the
     guard compares outdim(aff) with K, not any other dimension of the function"""
@@ -321,6 +372,8 @@ def decision_row_guard(ctx):
 def run(ctx):
     helpers.run_for(ctx)
     decision_row_guard(ctx)
+    from_poly_attached_dims(ctx, 'C04.R2')
+    helpers.share_from(ctx, 'c02', 'C04.R7', ['AffTree::compose#PRUNE'])
     helpers.share_arena_contracts(ctx, 'C04.R6', failing_paths=False)
     prune.check_wrappers(ctx, 'C04.R1', WRAPPERS)
     constructors_in_dim(ctx)
